@@ -167,7 +167,7 @@ def case_build(ctx, p):
         finally:
             ctx.CHECKS.activated = True
         mod.rod_to_u(p["rod"])
-        mod.rod_to_u(np.array(p["rod"]))
+        mod.rod_to_u(gen.as_form(p["rod"], 1 + int(abs(p["rod"][0]) * 1e9) % 2))
         mod.form_omega_mat(a[0])
         mod.form_omega_mat_general(a[0], a[1], a[2])
         mod.quart_to_omega(p["w_deg"], a[1], a[2])
@@ -203,7 +203,7 @@ def case_invert(ctx, p):
     if p["stratum"] != "axis_aligned":
         mon.nontriv("invert", U)
     for mod, m in ((ctx.T, "tools"), (ctx.L, "laue")):
-        for arg in (U, U.tolist()):
+        for arg in (U, gen.as_form(U, int(abs(U[0, 1]) * 1e9))):
             try:
                 mod.u_to_euler(arg)
             except Exception as exc:
